@@ -40,7 +40,8 @@ Property theorems only (helpers: `Proofs/Lemmas/Dynamics.lean`; model: `Pose/Mod
   `overridden_constants_used_ltv` — the shape of the seeded change C15-5).
 * §4c an LTV system written as an NLS (`Fn.affRow`: rows `Σ a_j(t) x_j + Σ b_j(t) u_j + c(t)`): the linearisation returns the
   coefficients — `A[i][j] = a_j(t*)`, `B[i][j] = b_j(t*)`, `c1[i] = c(t*)`, same for `C`, `D` — at every reference state / input
-  (`nls_ltv_jacobians`, `nls_ltv_jacobians_obs`, `nls_ltv_exact`, `nls_ltv_constant`; driver op `c15.affrow`, stream det/affrow).
+  (`nls_ltv_jacobians`, `nls_ltv_jacobians_obs`, `nls_ltv_exact`, `nls_ltv_constant`, `nls_ltv_c1`, `nls_ltv_c2` on the `c1` / `c2`
+  fields themselves; driver op `c15.affrow`, stream det/affrow).
 * §7 `nls_read_unchanged_by_calls`; §8 error paths: the code is **not** atomic (`partial_update_defect_witness`,
   `nls_history_last_attempt_raised`); `nls_failed_call_atomic`, `nls_history_without_failed_call` state what atomic error
   paths would give (a variant, not the code). The historical alias variants (D32, D38) are in `Lemmas/Dynamics §10`.
@@ -1112,6 +1113,33 @@ theorem nls_ltv_constant (fs gs : List Fn) (x u : DVec ℝ) (t : ℝ) (i : ℕ) 
     eval_lincomb_zero _ b x.length (fun j _ hj => hz j (by omega)),
     eval_free _ _ _ (mkEnv_agree x u t _ _ (by simp) (by simp)) c hc]
   ring
+
+/-- **`c1[i] = c(t*)` on the field itself**: for a component `f_i = Σ a_j(t) x_j + Σ b_j(t) u_j + c(t)` the entry `c1[i]` of the
+linearisation (`f(x*,u*,t*) − A x* − B u*` in the code) is the row's constant term at the reference time, whatever `x*`, `u*`. -/
+theorem nls_ltv_c1 (fs gs : List Fn) (x u : DVec ℝ) (t : ℝ) (i : ℕ) (hi : i < fs.length)
+    (a b : List Fn) (c : Fn) (hf : fs[i] = Fn.affRow x.length a b c)
+    (ha : ∀ e ∈ a, e.freeOf (x.length + u.length) = true) (hb : ∀ e ∈ b, e.freeOf (x.length + u.length) = true)
+    (hc : c.freeOf (x.length + u.length) = true) (hla : a.length ≤ x.length) (hlb : b.length ≤ u.length) :
+    (linearize fs gs x u t).c1.getD i 0 = c.eval (mkEnv x u t) := by
+  rw [← predict_origin fs gs x u t i hi]
+  exact nls_ltv_constant fs gs x u t i hi a b c hf ha hb hc hla hlb
+
+/-- the same for the observation: `c2[i] = c(t*)` for `g_i = Σ a_j(t) x_j + Σ b_j(t) u_j + c(t)`. -/
+theorem nls_ltv_c2 (fs gs : List Fn) (x u : DVec ℝ) (t : ℝ) (i : ℕ) (hi : i < gs.length)
+    (a b : List Fn) (c : Fn) (hg : gs[i] = Fn.affRow x.length a b c)
+    (ha : ∀ e ∈ a, e.freeOf (x.length + u.length) = true) (hb : ∀ e ∈ b, e.freeOf (x.length + u.length) = true)
+    (hc : c.freeOf (x.length + u.length) = true) (hla : a.length ≤ x.length) (hlb : b.length ≤ u.length) :
+    (linearize fs gs x u t).c2.getD i 0 = c.eval (mkEnv x u t) :=
+  nls_ltv_c1 gs fs x u t i hi a b c hg ha hb hc hla hlb
+
+/-- non-vacuity of `nls_ltv_c1`: the row `t·x₀ + cos t·x₁ + 3·u₀ + t²` linearised at `((5, −1), (2), 4)` has `c1 = [16]`. -/
+example :
+    let f : Fn := Fn.affRow 2 [.var 3, .cos (.var 3)] [.const false 3 1] (.pow (.var 3) 2)
+    (linearize (α := ℝ) [f] [] [5, -1] [2] 4).c1.getD 0 0 = 16 := by
+  intro f
+  have h := nls_ltv_c1 [f] [] [5, -1] [2] 4 0 (by simp) [.var 3, .cos (.var 3)] [.const false 3 1] (.pow (.var 3) 2) rfl
+    (by decide) (by decide) (by decide) (by simp) (by simp)
+  exact h.trans (by simp [Fn.eval, mkEnv, npow]; norm_num)
 
 /-- non-vacuity: the row `t·x₀ + cos t·x₁ + 3·u₀ + t²` (nx = 2, nu = 1, time = variable 3) linearised at
 `(x*, u*, t*) = ((5, −1), (2), 4)` has `A = [4, cos 4]`, `B = [3]`. -/
